@@ -72,6 +72,11 @@ GUARD_OPS = [("bin", "+", "1", '"x"'), ("bin", "+", "1", "2"), ("sub", "(1, 2, 3
              ("attr", "1", "nope"), ("attr", "1", "real"), ("sub", '"abc"', "None"), ("attr", "None", "real"), ("attr", "os", "ptah"), ("attr", "os", "path"),
              ("bin", "*", "(1,)", "1.5"), ("bin", "@", "1", "1"), ("un", "~", "1.5"), ("attr", "E.a", "valu"), ("sub", "None", "0"), ("bin", "|", "int", "None")]
 
+# operations on a variable that an EARLIER statement narrowed / annotated (hasattr, isinstance, callable, ==, truthiness,
+# assert, walrus, try/except AttributeError): the narrowing is true at run time by construction, the operation is one the
+# narrowing does not vouch for
+NARROW_FORMS = ["hasattr", "hasattr_assert", "hasattr_and", "isinstance", "isinstance_assert", "eq", "truthy", "callable", "walrus", "is_none", "tryexc", "hasattr_twice"]
+
 AUGOPS = ["+", "-", "*", "//", "%", "**", "<<", "&", "|", "^", "@", "/", ">>"]
 CMPOPS = ["==", "!=", "is", "is not", "in", "not in"]
 INSTANCES = {"GA_I": ["dyn_x", "dynamic", "other", "__class__", "__getattr__", "zz"], "SL_I": ["a", "unset", "b", "__slots__", "zz"],
@@ -163,7 +168,44 @@ def case_expr(c):
         return f"({c[1]}) {c[2]} ({c[3]}) {c[4]} ({c[5]})"
     if k == "guard":
         return guard_lines(c, "_v")[1]
+    if k == "narrow":
+        return "; ".join(x.strip() for x in narrow_lines(c, "_v")[0])
     raise ValueError(c)
+
+
+def narrow_lines(c, target, indent=""):
+    """-> (lines, index of the line holding the operation); c = ("narrow", form, operand, attr, typ, op)"""
+    _, form, operand, attr, typ, op = c
+    e = case_expr(norm_case(op))
+    i0, i1 = indent, indent + "    "
+    ls = [f"{i0}x = ({operand})"]
+    if form == "hasattr":
+        ls += [f"{i0}if hasattr(x, {attr!r}):", f"{i1}{target} = {e}"]
+    elif form == "hasattr_assert":
+        ls += [f"{i0}assert hasattr(x, {attr!r})", f"{i0}{target} = {e}"]
+    elif form == "hasattr_and":
+        ls += [f"{i0}{target} = hasattr(x, {attr!r}) and ({e})"]
+    elif form == "hasattr_twice":
+        ls += [f"{i0}if hasattr(x, {attr!r}) and hasattr(x, '__class__'):", f"{i1}{target} = {e}"]
+    elif form == "isinstance":
+        ls += [f"{i0}if isinstance(x, {typ.lstrip('!')}):", f"{i1}{target} = {e}"]
+    elif form == "isinstance_assert":
+        ls += [f"{i0}assert isinstance(x, {typ.lstrip('!')})", f"{i0}{target} = {e}"]
+    elif form == "eq":
+        ls += [f"{i0}if x == ({operand}):", f"{i1}{target} = {e}"]
+    elif form == "truthy":
+        ls += [f"{i0}if x or not x:", f"{i1}{target} = {e}"]
+    elif form == "callable":       # typ carries a leading "!" when the operand is not callable: the test is true at run time
+        ls += [f"{i0}if {'not ' if typ.startswith('!') else ''}callable(x):", f"{i1}{target} = {e}"]
+    elif form == "walrus":
+        ls += [f"{i0}if (y := x) is x:", f"{i1}{target} = {e}"]
+    elif form == "is_none":
+        ls += [f"{i0}if x is not None or x is None:", f"{i1}{target} = {e}"]
+    elif form == "tryexc":
+        ls += [f"{i0}try:", f"{i1}x.{attr}", f"{i0}except AttributeError:", f"{i1}pass", f"{i0}{target} = {e}"]
+    else:
+        raise ValueError(form)
+    return ls, len(ls) - 1
 
 
 def guard_lines(c, target, indent=""):
@@ -214,6 +256,8 @@ def norm_case(c):
         return ("call", c[1], tuple(c[2]))
     if c[0] == "guard":
         return ("guard", c[1], c[2], norm_case(c[3]))
+    if c[0] == "narrow":
+        return ("narrow", c[1], c[2], c[3], c[4], norm_case(c[5]))
     return tuple(c)
 
 
@@ -295,6 +339,26 @@ def gen_cases(rng, tier):
     gcases = [("guard", sh, g, op) for g in guards for sh in GUARD_SHAPES for op in GUARD_OPS]
     for gc in (rng.sample(gcases, 1500) if quick else gcases):
         cases.append(gc)
+    # operations on a variable narrowed by an earlier statement
+    ncases = []
+    tname = {int: "int", str: "str", bytes: "bytes", float: "float", complex: "complex", tuple: "tuple", bool: "bool", type(None): "type(None)"}
+    for a in OPERANDS:
+        obj = eval(a, ns)
+        pub = sorted(n for n in dir(obj) if n.isidentifier() and not n.startswith("_") and not keyword.iskeyword(n))
+        attr = pub[0] if pub else "__class__"
+        other = pub[-1] if pub else "__doc__"
+        typ = tname.get(type(obj)) or ("E" if type(obj).__name__ == "E" else "IE" if type(obj).__name__ == "IE" else "type" if isinstance(obj, type) else "object")
+        if not callable(obj):
+            typ = "!" + typ
+        miss = (attr[:-1] if len(attr) > 1 else attr + "q")
+        if miss in dir(obj):
+            miss = attr + "_zz"
+        ops = [("attr", "x", other), ("attr", "x", miss), ("attr", "x", "zz"), ("bin", "+", "x", '"a"'), ("bin", "+", "x", "1"), ("sub", "x", "0"), ("sub", "x", "7"), ("un", "-", "x")]
+        for form in NARROW_FORMS:
+            for op in ops:
+                ncases.append(("narrow", form, a, attr, typ, op))
+    for nc in (rng.sample(ncases, 800) if quick else ncases):
+        cases.append(nc)
     # typed sequences built by tuple / list displays
     n_seq = 900 if quick else 6000
     for _ in range(n_seq):
@@ -326,7 +390,8 @@ def build_module(cases):
     """-> (source, [(lineno of the observed assignment)])"""
     lines = PRELUDE.splitlines()
     linenos = []
-    plain = [(i, c) for i, c in enumerate(cases) if c[0] != "seq"]
+    plain = [(i, c) for i, c in enumerate(cases) if c[0] not in ("seq", "narrow")]
+    narrows = [(i, c) for i, c in enumerate(cases) if c[0] == "narrow"]
     seqs = [(i, c) for i, c in enumerate(cases) if c[0] == "seq"]
     where = {}
     if plain:
@@ -346,6 +411,12 @@ def build_module(cases):
             else:
                 lines.append(f"    _v{i} = {case_expr(c)}")
             where[i] = len(lines)
+    for i, c in narrows:
+        lines.append(f"def w{i}():")
+        ls, at = narrow_lines(c, f"_v{i}", "    ")
+        start = len(lines)
+        lines.extend(ls)
+        where[i] = start + at + 1
     for i, c in seqs:
         _, kind, ms, key = c
         params = ", ".join(f"a{j}: {'list[' + t + ']' if many else t}" for j, (many, t) in enumerate(ms))
@@ -447,7 +518,12 @@ def run_chunk(cases):
             with warnings.catch_warnings():
                 warnings.simplefilter("ignore")
                 try:
-                    if c[0] == "guard":
+                    if c[0] == "narrow":
+                        loc = {}
+                        exec("\n".join(narrow_lines(c, "_v")[0]), ns, loc)
+                        rec["live"] = "_v" in loc
+                        val = loc.get("_v")
+                    elif c[0] == "guard":
                         # run the guarded statement under CPython: the operation is performed only in the live branch
                         rec["live"] = guard_live(c[1], eval(c[2], ns))
                         loc = {}
@@ -481,6 +557,9 @@ def run_chunk(cases):
                     rec["oracle"] = {"exc": type(ex).__name__}
                     if isinstance(inferred, KnownValue):
                         rec["inferred"]["repr"] = short(inferred.val)
+            if c[0] == "narrow":
+                if c[1] == "hasattr_and":
+                    rec.pop("literal_ok", None)
             if c[0] == "guard":
                 rec.pop("literal_ok", None)  # the value of the guarded statement is not the value of the operation
             if c[0] in ("un", "bin"):
@@ -877,6 +956,14 @@ def should_diag(c, rec):
 def known_finding(c, rec, ns_eval):
     """-> finding id when the failing case falls under a recorded guard clause AND the
     implementation behaves as the faithful description predicts; else None"""
+    if c[0] == "narrow" and c[1] == "callable" and callable(ns_eval(c[2])):
+        # after a true callable(x) a known class is replaced by the type Callable[..., Any]: its attributes and its
+        # subscripting are then judged on that type, not on the object
+        return "C19-callable-narrowing-forgets-known-object"
+    if c[0] == "narrow":
+        # the operation itself, with the variable replaced by the operand it holds
+        op = tuple(c[2] if (isinstance(x, str) and x == "x") else x for x in c[5])
+        return known_finding(op, rec, ns_eval)
     diag = bool(set(rec["codes"]) & RELEVANT)
     exc = rec["oracle"].get("exc")
     k = c[0]
@@ -964,6 +1051,19 @@ def judge(cases, recs, models, rep, findings_text):
                 fail_why = f"value {o['bad']['value']} of {o['bad']['sequence']} is outside the inferred type"
             bump("verdict", "diag" if diag else rec["inferred"]["k"])
             nontrivial = any(m_ for m_, _ in c[2]) or len(c[2]) > 1
+        elif c[0] == "narrow":
+            exc = rec["oracle"].get("exc")
+            op = c[5]
+            obj = ns_eval(c[2])
+            want = exc in ("TypeError", "AttributeError") or (exc == "IndexError" and op[0] == "sub" and isinstance(obj, tuple))
+            performed = rec.get("live") or exc is not None
+            bump("oracle_exc", f"narrow:{exc or 'ok'}")
+            bump("verdict", f"narrow:{c[1]}:" + ("diag" if diag else "nodiag") + "/" + ("raises" if want else "ok"))
+            if performed and diag != want:
+                fail_why = f"operation on a variable narrowed by an earlier statement: diagnosed={diag} but CPython: {exc or 'no exception'}"
+            elif performed and rec.get("literal_ok") is False:
+                fail_why = f"inferred literal {rec['inferred'].get('repr')} but the result is {rec['oracle'].get('value')}"
+            nontrivial = True
         elif c[0] == "guard":
             exc = rec["oracle"].get("exc")
             live = rec.get("live")
